@@ -701,7 +701,42 @@ impl Judge {
             Entry::Add => {
                 let mut t = self.teras[d].clone();
                 match engine::add_templates(&mut t, &[("t".to_string(), src.to_string())]) {
-                    Out::Ok(_) => engine::render(&t, "t", &self.ctx),
+                    Out::Ok(_) => {
+                        let out = engine::render(&t, "t", &self.ctx);
+                        // "written to the output byte-for-byte": also into a writer that takes ONE
+                        // byte per call (a legal short write; seeded change C08-8 wrote literal
+                        // text with `write` instead of `write_all`)
+                        struct OneByte(Vec<u8>);
+                        impl std::io::Write for OneByte {
+                            fn write(&mut self, buf: &[u8]) -> std::io::Result<usize> {
+                                match buf.first() {
+                                    Some(b) => {
+                                        self.0.push(*b);
+                                        Ok(1)
+                                    }
+                                    None => Ok(0),
+                                }
+                            }
+                            fn flush(&mut self) -> std::io::Result<()> {
+                                Ok(())
+                            }
+                        }
+                        let mut w = OneByte(vec![]);
+                        let wr = engine::guarded(|| t.render_to("t", &self.ctx, &mut w));
+                        match (&out, wr) {
+                            (Out::Ok(text), Ok(Ok(()))) if w.0 == text.as_bytes() => out,
+                            (Out::Err(..), Ok(Err(_))) => out,
+                            (_, other) => Out::Err(
+                                "WriterMismatch".into(),
+                                format!(
+                                    "render gives {}, render_to into a one-byte-per-call writer {} and wrote {:?}",
+                                    out.show(),
+                                    match other { Ok(Ok(())) => "returns Ok".to_string(), Ok(Err(e)) => format!("returns Err({})", engine::kind_tag(e.kind())), Err(p) => format!("panics ({p})") },
+                                    String::from_utf8_lossy(&w.0)
+                                ),
+                            ),
+                        }
+                    }
                     other => other,
                 }
             }
